@@ -1,4 +1,5 @@
 import CaresLemmas.ChanWfFrame
+import CaresLemmas.ChanWfOof
 /-!
 # C01 — the well-formedness invariant of the channel model, preconditions of the procedures, and the
 two-state relation every procedure satisfies
@@ -170,6 +171,8 @@ def Pre (d : Nat → Nat) (s : St) : Call → Prop
       (if hasFinish acts then
         s.sk.Active id ∧ sends acts = 0 ∧ s.sk.NoSub id ∧ d id = 0 ∧ DebtOk (some id) d s.sk
        else DebtOk none (bump d id (sends acts)) s.sk ∧ (0 < sends acts → s.sk.Active id))
+  /- `ares_destroy` is never called by another procedure; it is treated separately (`ChanWfDestroy`) -/
+  | .destroy => False
   | _ => Wf s ∧ DebtOk none d s.sk
 
 def exFd : Call → Option Nat
@@ -210,7 +213,10 @@ structure Good (d : Nat → Nat) (c : Call) (s : St) (r : St × Ret) : Prop wher
   step : StepS (exFd c) (exId c) d s.sk r.1.sk
   post : Post s r c
 
+/-- the guarantee modulo fuel: nothing is claimed about a run that ran out of fuel (the flag is sticky) -/
+def GoodO (d : Nat → Nat) (c : Call) (s : St) (r : St × Ret) : Prop := r.1.outOfFuel = true ∨ Good d c s r
+
 /-- the hypothesis on the recursive calls in every body lemma -/
-def GoOk (go : Call → St → St × Ret) : Prop := ∀ d c s, Pre d s c → Good d c s (go c s)
+def GoOk (go : Call → St → St × Ret) : Prop := OofMono go ∧ ∀ d c s, Pre d s c → GoodO d c s (go c s)
 
 end Cares.Chan
